@@ -32,7 +32,7 @@ def main():
     results = {}
     try:
         for pid in pids:
-            for x in ("A", "B"):
+            for x in sorted(os.path.basename(d) for d in glob.glob(f"/tmp/seed-{pid}/*")):
                 src = f"/tmp/seed-{pid}/{x}"
                 if not os.path.exists(f"{src}/patch.diff"):
                     continue
